@@ -204,6 +204,39 @@ def lagged_signal_loop(n_limit: int, c0: int, gate: str = "route", name: str = "
     return {"spec": {"name": name, "nodes": nodes, "bind": {}}, "inputs": inputs, "ref": ref, "template": f"lagged-signal({gate})"}
 
 
+def early_read_signal_loop(limit: int, n0: int, gate: str = "route", name: str = "early"):
+    """A turn of three stages whose gate reads what the FIRST stage writes and waits for the signal of the LAST one:
+    write(n)->text, review(text)->rev, commit(rev, n)->n emitting 'done', gate(text) waiting for 'done'. The gate's data
+    input changes two steps before the signal is produced again (and the signal's producer is not runnable in that
+    step), so only the recorded 'signal already consumed' keeps the gate from deciding in mid-turn.
+    `do: text = n + 1; rev = text + 1; n = n + 1; while text < limit`"""
+    nodes = [
+        {"k": "fn", "name": "write", "params": [{"n": "n"}], "outs": ["text"], "beh": ["inc", "n"]},
+        {"k": "fn", "name": "review", "params": [{"n": "text"}], "outs": ["rev"], "beh": ["inc", "text"]},
+        {"k": "fn", "name": "commit", "params": [{"n": "rev"}, {"n": "n"}], "outs": ["n"], "emit": ["done"], "beh": ["inc", "n"]},
+    ]
+    if gate == "route":
+        nodes.append({"k": "route", "name": "gate", "params": [{"n": "text"}], "targets": ["write", "END"], "wait": ["done"], "cond": ["lt", "text", limit], "then": "write", "else": "END", "open": True})
+    else:
+        nodes.append({"k": "ifelse", "name": "gate", "params": [{"n": "text"}], "t": "write", "f": "END", "wait": ["done"], "cond": ["lt", "text", limit], "open": True})
+    inputs = {"n": n0}
+    trace = []
+    n = n0
+    while True:
+        text = n + 1
+        trace.append(("write", {"text": text}))
+        rev = text + 1
+        trace.append(("review", {"rev": rev}))
+        n = n + 1
+        trace.append(("commit", {"n": n}))
+        trace.append(("gate", {}))
+        if not text < limit:
+            break
+    vals = _fold(inputs, trace)
+    ref = {"trace": trace, "values": vals, "counts": _counts(trace), "singleton_steps": True, "steps": len(trace)}
+    return {"spec": {"name": name, "nodes": nodes, "bind": {}}, "inputs": inputs, "ref": ref, "template": f"early-read-signal({gate})"}
+
+
 def two_signal_loop(n_limit: int, c0: int, watchers: int = 1, name: str = "twosig"):
     """`while count < N: tmp = a(count) [emits sa]; m = mid(tmp); count = b(m) [emits sb]` plus watchers that wait
     for BOTH signals: the two productions of an iteration land in different steps, and a watcher runs once per
@@ -428,6 +461,8 @@ def systematic_templates(N: int) -> list:
         two_exit_loop(0, 2 * N, 100, "budget"),
         two_signal_loop(3 * N, N % 2, 1),
         fanout_join_loop(4 * N, N % 2, "empty"),
+        early_read_signal_loop(N, 0, "route"),
+        early_read_signal_loop(N + 1, 1, "ifelse"),
         fanout_join_loop(4 * N, 0, "empty", True),
     ]
 
@@ -444,6 +479,8 @@ def gen_loop(rng):
     if rng.random() < 0.08:
         return fanout_join_loop(rng.randint(0, 30), rng.randint(0, 3), "empty", rng.random() < 0.4)
     if t == "lagged":
+        if rng.random() < 0.4:
+            return early_read_signal_loop(n, c0, rng.choice(["route", "ifelse"]))
         return lagged_signal_loop(n, c0, rng.choice(["route", "ifelse"]))
     if t == "counter":
         # exit node names that merely EXTEND the body node's name (a decision must be matched as a whole name)
